@@ -9,6 +9,14 @@ Model: lean/St4sd/Model/Cache.lean via drv-c08 (state = description + cache).  T
 Oracle (model independent): after an operation, the configuration of every component on every platform
 must equal the one computed by a from-scratch FlowIRConcrete(raw(), platform, documents); every returned
 dictionary is mutated in place and the query repeated (private-copy clause, decided here only).
+
+Read-only operations are part of the histories: get_component_configuration with every combination of raw /
+include_default / is_primitive / inject_missing_fields (answers compared with the model), instance(),
+replicate(), raw(), copy(), the component / blueprint / variable getters (answers not modelled, every returned
+object is scribbled on), the reference getters without a write, and writes through the reference getters.
+A twin object receives ONLY the updates of the history: at every point the description of the object under
+test must equal the twin's, and at the sweep points every answer must equal the one of a fresh object built
+from the twin's description (read-only operations never change a later answer).
 """
 from __future__ import annotations
 
@@ -39,6 +47,10 @@ def body(name, stage, rng=None, flavour=0):
     b = {"stage": stage, "name": name,
          "command": {"executable": "echo", "arguments": ["%(x)s %(g)s", "%(x)s", "%(s)s/%(g)s", "lit"][flavour % 4]},
          "variables": {"x": "X%d" % flavour}, "references": []}
+    if flavour % 4 == 2:
+        # options of sections that only the stage-scoped blueprints mention
+        b["resourceManager"] = {"config": {"walltime": 5 + flavour}}
+        b["workflowAttributes"] = {"maxRestarts": flavour}
     if flavour % 3 == 1:
         b["resourceRequest"] = {"numberProcesses": "%(x)s" if flavour % 2 else 2}
         b["variables"]["x"] = "3"
@@ -53,8 +65,13 @@ def base_doc(names):
         comps.append(body(n, k % 2, flavour=k))
     return {
         "platforms": list(PLATFORMS),
-        "blueprint": {"default": {"global": {"command": {"environment": "%(g)s"}}, "stages": {}},
-                      "p": {"global": {"resourceManager": {"config": {"backend": "%(s)s"}}}, "stages": {}}},
+        "blueprint": {"default": {"global": {"command": {"environment": "%(g)s"}},
+                                  "stages": {0: {"resourceManager": {"config": {"walltime": 30}},
+                                                 "resourceRequest": {"numberThreads": 2}},
+                                             1: {"workflowAttributes": {"maxRestarts": 3, "shutdownOn": ["KnownIssue"]}}}},
+                      "p": {"global": {"resourceManager": {"config": {"backend": "%(s)s"}}},
+                            "stages": {0: {"workflowAttributes": {"maxRestarts": 4}},
+                                       1: {"resourceRequest": {"numberProcesses": 3}, "custom": {"k": "%(g)s"}}}}},
         "variables": {"default": {"global": {"g": "G", "s": "local"}, "stages": {0: {"s": "local"}, 1: {}}},
                       "p": {"global": {"g": "GP"}, "stages": {0: {}, 1: {"s": "lsf"}}}},
         "components": comps,
@@ -71,7 +88,9 @@ def gen_history(rng, length, meta):
     for _ in range(length):
         kind = rng.choice(["setVar", "setVar", "delVar", "setOption", "setOption", "removeOption", "setGlobalVar",
                            "setStageVar", "setPlatGlobalVar", "setPlatStageVar", "addComp", "updateComp", "deleteComp",
-                           "query", "query", "query", "sweep", "sweep"])
+                           "query", "query", "query", "sweep", "sweep",
+                           "queryF", "queryF", "queryF", "read", "read", "read", "touchComp", "touchVars",
+                           "setVarViaRef", "setGlobalVarViaRef"])
         known = list(live.items())
         if rng.random() < 0.08 or not known:
             target = (rng.choice(pool), rng.choice([0, 1]))          # possibly unknown component
@@ -111,30 +130,78 @@ def gen_history(rng, length, meta):
                 del live[n]
         elif kind == "query":
             ops.append({"op": "query", "stage": i, "name": n, "platform": rng.choice(PLATFORMS)})
+        elif kind == "queryF":
+            ops.append({"op": "queryF", "stage": i, "name": n, "platform": rng.choice(PLATFORMS),
+                        "flags": rng.choice(K.ALL_FLAGS)})
+        elif kind == "read":
+            ops.append(K.gen_read(rng, [(si, sn) for sn, si in known], PLATFORMS))
+        elif kind == "touchComp":
+            ops.append({"op": kind, "stage": i, "name": n})
+        elif kind == "touchVars":
+            ops.append({"op": kind, "platform": rng.choice(PLATFORMS), "stage": rng.choice([None, 0, 1])})
+        elif kind == "setVarViaRef":
+            ops.append({"op": kind, "stage": i, "name": n, "var": rng.choice(VARS), "value": rng.choice(VALUES)})
+        elif kind == "setGlobalVarViaRef":
+            ops.append({"op": kind, "platform": rng.choice(PLATFORMS), "var": rng.choice(VARS), "value": rng.choice(VALUES)})
         else:
             ops.append({"op": "sweep"})
     ops.append({"op": "sweep"})
     return {"kind": "history", "meta": meta, "doc": doc, "ops": ops}
 
 
+def gen_triples(rng, repeat):
+    """systematic stream: populate the cache for every component on every platform, ONE update, ask again -
+    every kind of update, every variable name x every platform (x stage) for the variable setters, every
+    component for the component-level ones"""
+    names = ["c0", "c1", "d"]
+    out = []
+
+    def add(op, pre=None):
+        ops = [{"op": "sweep"}] + ([pre] if pre else []) + [op, {"op": "sweep"}]
+        out.append({"kind": "history", "meta": False, "doc": base_doc(names), "ops": ops})
+
+    for _ in range(repeat):
+        val = lambda: rng.choice(["vv", "1", 7, "%(g)s"])
+        for v in VARS:
+            add({"op": "setGlobalVar", "var": v, "value": val()})
+            for P in PLATFORMS:
+                add({"op": "setPlatGlobalVar", "platform": P, "var": v, "value": val()})
+                add({"op": "setGlobalVarViaRef", "platform": P, "var": v, "value": val()})
+                for st in (0, 1):
+                    add({"op": "setPlatStageVar", "platform": P, "stage": st, "var": v, "value": val()})
+            for st in (0, 1):
+                add({"op": "setStageVar", "stage": st, "var": v, "value": val()})
+        for k, n in enumerate(names):
+            st = k % 2
+            for v in VARS:
+                add({"op": "setVar", "stage": st, "name": n, "var": v, "value": val()})
+            add({"op": "setVarViaRef", "stage": st, "name": n, "var": rng.choice(VARS), "value": val()})
+            add({"op": "delVar", "stage": st, "name": n, "var": "x"})
+            add({"op": "setOption", "stage": st, "name": n, "route": rng.choice(ROUTES), "value": rng.choice(ROUTE_VALUES)})
+            add({"op": "setOption", "stage": st, "name": n, "route": "#command.arguments", "value": "-a %(x)s"})
+            add({"op": "removeOption", "stage": st, "name": n, "route": rng.choice(["x", "#command.arguments", "#references"])})
+            add({"op": "updateComp", "stage": st, "name": n, "body": body(n, st, flavour=rng.randint(4, 12))})
+            add({"op": "deleteComp", "stage": st, "name": n})
+            # a flatten / no-defaults query of a sibling between populating and asking again
+            add({"op": "touchComp", "stage": st, "name": n},
+                pre={"op": "queryF", "stage": st, "name": n, "platform": rng.choice(PLATFORMS),
+                     "flags": {"raw": rng.random() < 0.5, "incl": rng.random() < 0.5, "prim": rng.random() < 0.5,
+                               "inject": False}})
+        add({"op": "addComp", "stage": 0, "name": "c00", "body": body("c00", 0, flavour=rng.randint(4, 12))})
+        add({"op": "touchVars", "platform": rng.choice(PLATFORMS), "stage": rng.choice([None, 0, 1])},
+            pre={"op": "read", "what": "instance", "platform": rng.choice(PLATFORMS), "fill_in_all": False,
+                 "prim": True, "inject": False})
+    return out
+
+
 # ----------------------------------------------------------------------------------------
 # real code
 # ----------------------------------------------------------------------------------------
 
-def scramble(tree):
-    """in-place mutation of everything reachable in a returned configuration"""
-    if isinstance(tree, dict):
-        for k in list(tree.keys()):
-            v = tree[k]
-            if isinstance(v, (dict, list)):
-                scramble(v)
-            else:
-                tree[k] = "MUTATED-BY-CALLER"
-        tree["injected-by-caller"] = {"x": 1}
-    elif isinstance(tree, list):
-        for v in tree:
-            scramble(v)
-        tree.append("MUTATED-BY-CALLER")
+scramble = K.scramble
+
+
+READ_ONLY = ("query", "queryF", "read", "touchComp", "touchVars")
 
 
 def apply_op(conc, op):
@@ -147,7 +214,25 @@ def apply_op(conc, op):
             out = {"ok": K.to_json(res)}
             scramble(res)
             return out
+        if k == "queryF":
+            keep = []
+            out = K.impl_resolve(conc, (op["stage"], op["name"]), op["platform"], op["flags"]["prim"], op["flags"], keep)
+            for r in keep:
+                scramble(r)
+            return out
+        if k == "read":
+            return K.apply_read(conc, op)
+        if k in ("touchComp", "touchVars"):
+            return K.apply_touch(conc, op)
         cid = (op.get("stage"), op.get("name"))
+        if k == "setVarViaRef":
+            ref = conc.get_component(cid, return_copy=False)
+            ref["variables"][op["var"]] = copy.deepcopy(op["value"])
+            return {"ok": None}
+        if k == "setGlobalVarViaRef":
+            ref = conc.get_platform_global_variables(op["platform"], return_copy=False)
+            ref[op["var"]] = copy.deepcopy(op["value"])
+            return {"ok": None}
         if k == "setVar":
             conc.set_component_variable(cid, op["var"], copy.deepcopy(op["value"]))
         elif k == "delVar":
@@ -188,24 +273,46 @@ def run_history(case, want_model_ops=True):
     """runs the history on the real code; returns (flat ops incl. sweep queries, impl answers, oracle failures)"""
     F = _F()
     conc = F.FlowIRConcrete(copy.deepcopy(case["doc"]), "default", {})
+    twin = F.FlowIRConcrete(copy.deepcopy(case["doc"]), "default", {})     # receives the updates only
     desc = K.desc_of(conc)
+    twin_norm = K.desc_norm(twin)
     flat, answers, failures = [], [], []
-    for op in case["ops"]:
+    for idx, op in enumerate(case["ops"]):
         if op["op"] != "sweep":
             flat.append(op)
             a = apply_op(conc, op)
             answers.append(a)
-            if op["op"] == "query":
+            if op["op"] in ("query", "queryF"):
                 # private copy: the caller scrambled the answer; the same query again must be unaffected
                 again = apply_op(conc, op)
                 flat.append(op)
                 answers.append(again)
                 if canon(again) != canon(a):
                     failures.append(("returned-configuration-is-not-a-private-copy", {"op": op, "first": a, "again": again}))
+            if op["op"] not in READ_ONLY:
+                b = apply_op(twin, op)
+                twin_norm = K.desc_norm(twin)
+                if canon(coarse(a)) != canon(coarse(b)):
+                    failures.append(("update-answers-differently-after-read-only-operations",
+                                     {"op": op, "index": idx, "answer": a, "updates_only": b}))
+            # the description is a function of the updates alone
+            now = K.desc_norm(conc)
+            if now != twin_norm:
+                failures.append(("description-differs-from-replaying-only-the-updates",
+                                 {"after": op, "index": idx, "difference": K.first_difference(twin_norm, now)}))
+                # resynchronise (report each divergence once); a description that cannot even be loaded
+                # any more ends the history
+                try:
+                    twin = F.FlowIRConcrete(conc.raw(), "default", {})
+                    twin_norm = K.desc_norm(twin)
+                except Exception as exc:
+                    failures.append(("description-cannot-be-reloaded", {"error": type(exc).__name__, "after": op}))
+                    break
             continue
         try:
             ids = sorted(conc.get_component_identifiers(False), key=str)
             fresh = F.FlowIRConcrete(conc.raw(), "default", {})
+            fresh2 = F.FlowIRConcrete(twin.raw(), "default", {})
         except Exception as exc:
             failures.append(("description-cannot-be-reloaded", {"error": type(exc).__name__}))
             continue
@@ -218,6 +325,11 @@ def run_history(case, want_model_ops=True):
                 b = apply_op(fresh, q)
                 if canon(a) != canon(b):
                     failures.append(("query-differs-from-from-scratch-resolution", {"query": q, "cached": a, "from_scratch": b}))
+                c = apply_op(fresh2, q)
+                if canon(a) != canon(c):
+                    failures.append(("query-differs-from-replaying-only-the-updates",
+                                     {"query": q, "answer": a, "updates_only": c,
+                                      "difference": K.first_difference(c, a)}))
     return desc, flat, answers, failures
 
 
@@ -236,6 +348,16 @@ def model_ops(flat):
     out = []
     for op in flat:
         o = dict(op)
+        if o["op"] == "queryF":
+            o.update(o.pop("flags"))
+        elif o["op"] == "read":
+            o = {"op": "read"}
+        elif o["op"] == "touchVars":
+            o = {"op": "touchVars"}
+        elif o["op"] == "setVarViaRef":
+            o["op"] = "setVar"
+        elif o["op"] == "setGlobalVarViaRef":
+            o["op"] = "setPlatGlobalVar"
         if "value" in o:
             o["value"] = K.to_json(o["value"])
         if "body" in o:
@@ -283,9 +405,13 @@ def check_histories(ctx, cases):
     mouts = ctx.model(reqs)
     for case, (flat, answers, failures), mo in zip(cases, runs, mouts or [None] * len(cases)):
         kinds = sorted({o["op"] for o in case["ops"]})
-        muts = [o for o in case["ops"] if o["op"] not in ("query", "sweep")]
-        ctx.case(case, nontrivial=len(muts) >= 2 and any(o["op"] in ("query", "sweep") for o in case["ops"][:-1]),
+        muts = [o for o in case["ops"] if o["op"] not in READ_ONLY + ("sweep",)]
+        triple = case["ops"][0]["op"] == "sweep" and len(muts) == 1
+        ctx.case(case, nontrivial=(len(muts) >= 2 or triple) and
+                 any(o["op"] in READ_ONLY + ("sweep",) for o in case["ops"][:-1]),
                  tags=["history:" + ("meta-names" if case["meta"] else "plain")] + ["op:" + k for k in kinds] +
+                      ["read:" + o["what"] for o in case["ops"] if o["op"] == "read"] +
+                      [K.flag_tag(o["flags"]) for o in case["ops"] if o["op"] == "queryF"] +
                       ["answer:" + (a.get("error") or "ok") for a in answers])
         for what, detail in failures:
             ctx.fail(what, case, detail)
@@ -310,12 +436,19 @@ def run(ctx):
     ctx.classifiers = CLASSIFIERS
     rng = ctx.rng
     quick = ctx.tier == "quick"
-    ctx.rule = ("cases = histories over 3+ components (stages 0/1) and platforms default/p: random sequences of the 11 "
-                "mutators and queries (length <= 30 quick / <= 200 thorough), with 'sweep' points at which every "
-                "component is queried on both platforms and compared with a from-scratch FlowIRConcrete(raw()); every "
-                "query answer is scrambled in place and the query repeated; one stream uses component names with "
-                "regular-expression metacharacters; non-trivial = >= 2 mutators and a query before the end; distinct by "
-                "canonical JSON of the history.")
+    ctx.rule = ("cases = histories over 3+ components (stages 0/1, stage-scoped blueprints) and platforms default/p: "
+                "random sequences of the 11 mutators (+ writes through the reference getters), fully resolved queries, "
+                "queries with every combination of raw/include_default/is_primitive/inject_missing_fields, copying "
+                "accessors (instance, replicate, raw, copy, component / blueprint / variable getters; every returned "
+                "object scribbled on) and reference getters without a write (length <= 30 quick / <= 200 thorough), "
+                "with 'sweep' points at which every component is queried on both platforms and compared with a "
+                "from-scratch FlowIRConcrete(raw()) and with a fresh object built from a twin that received only the "
+                "updates; every query answer is scrambled in place and the query repeated; after every operation the "
+                "description is compared with the twin's; one stream uses component names with regular-expression "
+                "metacharacters; plus a systematic stream 'populate the cache everywhere - ONE update - ask everything "
+                "again' over every kind of update (variable setters: every variable x platform x stage; component "
+                "updates: every component); non-trivial = (>= 2 mutators or the systematic pattern) and a read-only "
+                "operation before the end; distinct by canonical JSON of the history.")
     ctx.assumptions = ["mutators are called on the existing platforms (default, p) only",
                        "update_component is given a body with the same (stage, name)",
                        "values are strings / integers / booleans / floats / None / short lists"]
@@ -327,11 +460,21 @@ def run(ctx):
         cases.append(gen_history(rng, rng.randint(5, 30 if quick else 200), False))
     for k in range(n_meta):
         cases.append(gen_history(rng, rng.randint(5, 30 if quick else 120), True))
+    cases.extend(gen_triples(rng, 1 if quick else 4))
     # minimal regression inputs (corpus, inline): the read-before-write staleness pattern
     doc = base_doc(["a+b", "c0"])
     cases.insert(0, {"kind": "history", "meta": True, "doc": doc, "ops": [
         {"op": "query", "stage": 0, "name": "a+b", "platform": "default"},
         {"op": "setVar", "stage": 0, "name": "a+b", "var": "x", "value": "2"}, {"op": "sweep"}]})
+    # flatten-before-resolve: what creating an experiment instance does (instance() without the built-in
+    # defaults), then every component is resolved
+    doc = base_doc(["c0", "c1", "d", "c", "c00"])
+    cases.insert(1, {"kind": "history", "meta": False, "doc": doc, "ops": [
+        {"op": "read", "what": "instance", "platform": "default", "fill_in_all": False, "prim": True, "inject": False},
+        {"op": "sweep"},
+        {"op": "setVar", "stage": 0, "name": "c0", "var": "x", "value": "2"},
+        {"op": "read", "what": "instance", "platform": "p", "fill_in_all": False, "prim": True, "inject": False},
+        {"op": "sweep"}]})
     check_histories(ctx, cases)
 
 
